@@ -63,7 +63,8 @@ static void vr_install_guard(void)
     sigaction(SIGSEGV, &sa, NULL); sigaction(SIGBUS, &sa, NULL); sigaction(SIGFPE, &sa, NULL); sigaction(SIGABRT, &sa, NULL);
 }
 /* run STMT guarded; afterwards vr_failed tells whether anything went wrong */
-#define VR_GUARDED(STMT) do { if (0 == sigsetjmp(vr_jb, 0)) { vr_armed = 1; STMT; vr_armed = 0; } else { vr_armed = 0; } } while (0)
+static void (*vr_recover)(void) = NULL;   /* harness hook: called after an aborted handler (release locks the code under test still holds) */
+#define VR_GUARDED(STMT) do { if (0 == sigsetjmp(vr_jb, 0)) { vr_armed = 1; STMT; vr_armed = 0; } else { vr_armed = 0; if (vr_recover) vr_recover(); } } while (0)
 
 /* ------------------------------------------------------------------ network of in-flight messages */
 #define VR_MSG_MAX 24
@@ -132,7 +133,13 @@ typedef struct {
 #define VR_F_GOAL 1
 #define VR_F_TERMINAL 2
 #define VR_F_NONTRIVIAL 4
-static uint64_t vr_hash64(const uint8_t *p, size_t n) { uint64_t h = 1469598103934665603ULL; for (size_t i = 0; i < n; i++) { h ^= p[i]; h *= 1099511628211ULL; } h ^= h >> 29; h *= 0xbf58476d1ce4e5b9ULL; h ^= h >> 32; return h; }
+static uint64_t vr_hash64(const uint8_t *p, size_t n)
+{   /* 8 bytes at a time (murmur-like mixing); only used to place states in the table, equality is decided on the full bytes */
+    uint64_t h = 0x9E3779B97F4A7C15ULL ^ (n * 0xff51afd7ed558ccdULL), k;
+    while (n >= 8) { memcpy(&k, p, 8); k *= 0x87c37b91114253d5ULL; k = (k << 31) | (k >> 33); k *= 0x4cf5ad432745937fULL; h ^= k; h = ((h << 27) | (h >> 37)) * 5 + 0x52dce729; p += 8; n -= 8; }
+    if (n) { k = 0; memcpy(&k, p, n); k *= 0x87c37b91114253d5ULL; k = (k << 31) | (k >> 33); k *= 0x4cf5ad432745937fULL; h ^= k; }
+    h ^= h >> 33; h *= 0xff51afd7ed558ccdULL; h ^= h >> 33; h *= 0xc4ceb9fe1a85ec53ULL; h ^= h >> 33; return h;
+}
 static void vr_store_rehash(vr_store_t *s, size_t nc)
 {
     free(s->ht); s->ht = (uint32_t *)malloc(nc * sizeof(uint32_t)); memset(s->ht, 0xff, nc * sizeof(uint32_t)); s->htcap = nc;
